@@ -311,6 +311,11 @@ def b_goodman(ctx):
                 df = pd.DataFrame({'range': [2 * a], 'mean': [m]})
                 lc = df.meanstress_transform.fkm_goodman(pd.Series({'M': par[0], 'M2': par[1]}), Rg)
                 acc = float(lc.amplitude.iloc[0])
+                # the cycles are identified by the column NAMES: columns listed the other way round, a further column, a non-default row label
+                df2 = pd.DataFrame({'note': [1.0], 'mean': [m], 'range': [2 * a]}, index=pd.Index([7], name='cycle_number'))
+                acc2 = float(df2.meanstress_transform.fkm_goodman(pd.Series({'M2': par[1], 'M': par[0]}), Rg).amplitude.iloc[0])
+                if not (acc2 == acc or abs(acc2 - acc) <= 1e-12 * abs(acc)):
+                    ctx.fail('C12:interfaces:column-order', f'collective accessor gives {acc2} for the frame with columns (note, mean, range), {acc} for (range, mean)', {'a': a, 'm': m, 'R_goal': Rg})
                 if abs(acc - got) > 1e-12 * max(1, got):
                     ctx.fail('C12:interfaces', f'collective accessor {acc} != plain function {got}', {'a': a, 'm': m, 'R_goal': Rg})
                 mean_got = float(lc.meanstress.iloc[0])
